@@ -267,6 +267,45 @@ def validate(ctx, traces, module="YorkieTrace", cfg="YorkieTrace.cfg", timeout=1
     return viols
 
 
+def trace_stats(ctx, traces):
+    """Vacuity control: counts how often the decisive mechanisms actually fired."""
+    last_g = {}
+    for t in traces:
+        for line in open(t):
+            e = json.loads(line)
+            ev = e["ev"]
+            if ev == "Init":
+                last_g = {}
+            elif ev == "PP":
+                ctx.count("pp_requests")
+                if e["res"]["snap"]:
+                    ctx.count("snapshot_responses")
+                if not e["ok"]:
+                    ctx.count("pp_errors")
+                if e.get("rows"):
+                    ctx.count("log_rows", len(e["rows"]))
+            elif ev in ("Attach", "Sync", "Detach", "Edit", "Undo", "Redo", "Remove"):
+                r = e.get("rep")
+                if r and "garbage" in r:
+                    k = (e["c"], e["d"], r.get("sess"))
+                    if k in last_g and r["garbage"] < last_g[k]:
+                        ctx.count("garbage_purged", last_g[k] - r["garbage"])
+                    last_g[k] = r["garbage"]
+                if ev == "Edit":
+                    ctx.count("edits_" + e.get("outcome", "?"))
+                    g = (e.get("args") or {}).get("guard")
+                    if g:
+                        ctx.count("guard_" + g)
+                if ev in ("Undo", "Redo"):
+                    ctx.count(ev.lower() + "s")
+            elif ev == "Build":
+                ctx.count("builds")
+            elif ev == "Compact":
+                ctx.count("compactions_ok" if e["ok"] else "compactions_refused")
+            elif ev == "Skip":
+                ctx.count("skipped_steps")
+
+
 def count_traces(traces):
     n = 0
     for t in traces:
